@@ -1,4 +1,6 @@
 import PyamgV.Props.Restate
+import PyamgV.Model.Facts
+import PyamgV.Generated.Facts
 import PyamgV.Proofs.StdAgg6
 import PyamgV.Proofs.NaiveAgg
 import PyamgV.Proofs.Pairwise
@@ -26,5 +28,9 @@ restate pairwise_aggregation_spec := PyamgV.Pairwise.pairwise_spec
 
 /-! non-vacuity: the path 0–1–2 with an isolated node 3 -/
 example : (Agg.standardAggregation ⟨4, fun i => [[1],[0,2],[1],[]].getD i []⟩).1 = #[0, 0, 0, -1] := by decide
+
+/-! ### interface facts regenerated from the working tree on every run (translator tie) -/
+/-- the `kernels_smoothed_aggregation` table the models assume equals the one regenerated from the source now -/
+theorem generated_kernels_smoothed_aggregation : PyamgV.Facts.kernels_smoothed_aggregation = PyamgV.Generated.kernels_smoothed_aggregation := by decide
 
 end PyamgV.Props.C12
